@@ -258,6 +258,7 @@ type DB struct {
 	Fault func(sess int, worker string, n int64, kind string, sql string) error
 
 	advisory map[int64]*advLock
+	waiting  map[string]*waitErr // worker -> what its parked statement waits for
 	notes    []string // ORDER-DEPENDENT and similar diagnostics
 	skipped  []string // legacy migration statements skipped under the empty-tables rule
 	Unsupported []string
@@ -270,7 +271,7 @@ type advLock struct {
 }
 
 func NewDB() *DB {
-	db := &DB{schemas: map[string]*Schema{}, sessions: map[int]*Session{}, advisory: map[int64]*advLock{}}
+	db := &DB{schemas: map[string]*Schema{}, sessions: map[int]*Session{}, advisory: map[int64]*advLock{}, waiting: map[string]*waitErr{}}
 	db.cond = sync.NewCond(&db.mu)
 	base := time.Date(2030, 1, 1, 0, 0, 0, 0, time.UTC)
 	db.Clock = func() time.Time { return base }
